@@ -62,7 +62,9 @@ def count_nested(df, nested, by=None, join=True) -> NestedFrame:
         counts = counts.rename(columns={colname: f"n_{nested}_{colname}" for colname in counts.columns})
         counts = counts.reindex(sorted(counts.columns), axis=1)
     if join:
-        return df.join(counts)
+        # counts has one row per row of df, in the same order; join positionally,
+        # an index join would multiply the rows with repeated index labels
+        return df.reset_index(drop=True).join(counts.reset_index(drop=True)).set_index(df.index)
     # else just return the counts NestedFrame
     if isinstance(counts, pd.Series):  # for by=None, which returns a Series
         counts = NestedFrame(counts.to_frame())
